@@ -59,6 +59,14 @@ pub fn check_case(ctx: &Ctx, tcs: &[String], cfg: &Cfg) {
         Ok(o) => o,
         Err(m) => return crate::findings::report(ctx, viol("C13", "panic", "panic".into(), tcs, cfg, "", json!({"panic": m}))),
     };
+    // thresholds configured before repetition conversion is switched on must be honoured just the same
+    if cfg.has(R) && (cfg.minrep, cfg.minlen) != (1, 1) {
+        if let Ok(o2) = cfg.build_thresholds_first(tcs) {
+            if o2 != out {
+                return crate::findings::report(ctx, viol("C13", "structure", "thresholds-set-before-r-not-honoured".into(), tcs, cfg, &o2, json!({"thresholds_first": o2, "flags_first": out})));
+            }
+        }
+    }
     let Ok(text) = prep(&out, cfg) else { return };
     let a = match ast::parse::ParserBuilder::new().nest_limit(100_000).build().parse(&text) {
         Ok(a) => a,
